@@ -78,6 +78,13 @@ func Open(dir string, c Cfg) (*engine.EngineFacade, error) {
 	return engine.NewEngineFacade(dir)
 }
 
+// IsEngineBusy reports the engine's own give-up error: a write (or commit) that found the log in
+// rotation for longer than storage.RetryOnWALRotating's three retries. The statements allow a write to
+// fail (C06: it must then have had no effect); they do not promise that it succeeds.
+func IsEngineBusy(err error) bool {
+	return err != nil && strings.Contains(err.Error(), "WAL is rotating")
+}
+
 func IsNotFound(err error) bool {
 	return err != nil && strings.Contains(err.Error(), "key not found")
 }
